@@ -19,9 +19,6 @@ pub open spec fn op_of(info: StoreInfo) -> StoreOp {
         else { StoreOp::Delete { store: info.store, off: info.index as int, len: info.length->Some_0 as int } }
     } else { StoreOp::Truncate { store: info.store, len: info.index as int } }
 }
-pub open spec fn flushable(info: StoreInfo) -> bool {
-    if info.info_type == StoreInfoType::Content { if !info.miss { info.data is Some } else { info.length is Some } } else { info.miss }
-}
 pub open spec fn ops_of(infos: Seq<StoreInfo>) -> Seq<StoreOp> { infos.map_values(|i: StoreInfo| op_of(i)) }
 
 impl Storage {
